@@ -11,7 +11,7 @@ LEVEL = "exploration"
 RULE = (
     "the finite matrix target {module function, instance method, classmethod, staticmethod, plain attribute} x "
     "replacement {default mock, plain function, bound method, callable object, new_callable=, non-callable} x "
-    "activation {context manager, decorator, start/stop} x exit path {normal, exception, stop(), stopall()} x "
+    "activation {context manager, function decorator, class decorator (goes through patcher.copy()), start/stop} x exit path {normal, exception, stop(), stopall()} x "
     "composition {single, nested on the same target, sequential} x entry point {patch('mod.attr'), patch.object} is "
     "ENUMERATED COMPLETELY on a synthetic module registered in sys.modules. Inside the patch the sync call, "
     ".asynq().value(), yielding .asynq() from a task and asyncio.run(.asyncio()) must all reach the replacement with the "
@@ -24,7 +24,7 @@ UNIT_TIMEOUT = {"quick": 200, "thorough": 600}
 
 TARGETS = ["fn", "meth", "cmeth", "smeth", "const"]
 REPLS = ["default", "function", "bound", "callable_obj", "new_callable", "noncallable"]
-ACTS = ["with", "decorator", "startstop"]
+ACTS = ["with", "decorator", "classdeco", "startstop"]
 EXITS = ["normal", "exception", "stopall"]
 COMPS = ["single", "nested", "sequential"]
 ENTRIES = ["patch", "patch.object"]
@@ -224,8 +224,10 @@ def run_cell(target, repl, act, exit_path, comp, entry):
                         raise UserErr(("leave",))
             except UserErr:
                 pass
-        elif act == "decorator":
+        elif act in ("decorator", "classdeco"):
             def body(*margs):
+                if act == "classdeco":
+                    margs = margs[1:]  # self
                 entered = margs[0] if margs else None
                 if repl in ("default", "new_callable") and entered is None:
                     viol.append(("decorator-did-not-pass-the-mock", {}))
@@ -240,7 +242,12 @@ def run_cell(target, repl, act, exit_path, comp, entry):
                 return "returned"
 
             try:
-                p(body)()
+                if act == "decorator":
+                    p(body)()
+                else:
+                    # class decoration patches every test_* method through patcher.copy()
+                    T = p(type("T", (object,), {"test_it": body}))
+                    T().test_it()
             except UserErr:
                 pass
         else:
